@@ -389,6 +389,7 @@ func c12r3(c *core.Ctx) {
 	// what the typed getters assert is the stored, converted and clamped Value — not a raw result of the application's get function
 	// (shared with C11-R6)
 	getValueRevealsOnlyStored(c)
+	baseConstructorsUsable(c)
 	readableCtorsHoldAValue(c)
 	p := c.P
 	consts := formatConstants(p)
